@@ -26,6 +26,33 @@ def make_work(rng, tier):
             runs.append((q, {"partitions": rng.choice([1, 2, 4]), "enable_optimizer": bool(rng.below(2))}))
         work.append({"id": "c09-%d" % i, "tables": tables, "runs": runs, "prelude": list(g.prelude), "mode": "det", "det_partitions": 2,
                      "sched": {"kind": "fifo", "seed": 1}})
+    # quantified-comparison matrix: every operator x ANY/ALL over small integer domains with NULLs, duplicates
+    # and ties at the extremes (the ALL form is planned as NOT (negated-op ANY): every entry of the negation
+    # table is exercised with tie and non-tie values), uncorrelated and correlated, in WHERE and in the select list
+    ndb = 2 if tier == "quick" else 12
+    for i in range(ndb):
+        def rows(n):
+            return [[rng.choice(["N", "I1", "I2", "I2", "I3", "I3"]), rng.choice(["I0", "I1"])] for _ in range(n)]
+        tables = [("t0", [("c0", "i32"), ("c1", "i32")], rows(rng.choice([4, 7]))),
+                  ("t1", [("c0", "i32"), ("c1", "i32")], rows(rng.choice([0, 3, 6])))]
+        runs = []
+        for kind in ("any", "all"):
+            for op, sym in (("eq", "="), ("ne", "<>"), ("lt", "<"), ("le", "<="), ("gt", ">"), ("ge", ">=")):
+                for corr in (False, True):
+                    wsql = " WHERE (x2.c1 = x1.c1)" if corr else ""
+                    wsx = "(cmp eq (col 0 1) (col 1 1))" if corr else "-"
+                    sub_sql = "SELECT x2.c0 AS o0 FROM t1 AS x2%s" % wsql
+                    sub_sx = "(select (fq (table 1)) %s - - ((col 0 0)) 0)" % wsx
+                    qx = "(quant %s %s (col 0 0) %s)" % (kind, op, sub_sx)
+                    cls = {"quantified", "in_sub", "quant_matrix"} | ({"correlated"} if corr else set())
+                    q1 = sqlgen.Q("SELECT x1.c0 AS r0, x1.c1 AS r1 FROM t0 AS x1 WHERE (x1.c0 %s %s (%s))" % (sym, kind.upper(), sub_sql),
+                                  "(select (fq (table 0)) %s - - ((col 0 0) (col 0 1)) 0)" % qx, ["i32", "i32"], ["r0", "r1"], set(cls))
+                    q2 = sqlgen.Q("SELECT x1.c0 AS r0, (x1.c0 %s %s (%s)) AS r1 FROM t0 AS x1" % (sym, kind.upper(), sub_sql),
+                                  "(select (fq (table 0)) - - - ((col 0 0) %s) 0)" % qx, ["i32", "bool"], ["r0", "r1"], set(cls))
+                    for q in (q1, q2):
+                        runs.append((q, {"partitions": rng.choice([1, 2]), "enable_optimizer": bool(rng.below(2))}))
+        work.append({"id": "c09-quant-%d" % i, "tables": tables, "runs": runs, "mode": "det", "det_partitions": 2,
+                     "sched": {"kind": "fifo", "seed": 1}})
     return work
 
 
